@@ -213,7 +213,12 @@ fn build_crafted(ct: u8, epoch: u16, seq: u64, payload: &Payload, prot: &Prot, s
     }
     dgram.extend_from_slice(&rec);
     let ct_label = if (20..=24).contains(&ct) { format!("rx:ct={ct}") } else { "rx:ct=invalid".to_string() };
-    Built {
+    let claims = matches!(prot, Prot::Plain) && epoch >= 1;
+    let mut extra_labels = Vec::new();
+    if claims {
+        extra_labels.push("rx:plaintext-claiming-protected-epoch".to_string());
+    }
+    let mut b = Built {
         desc: format!(
             "crafted ct={ct} epoch={epoch} seq={seq} payload={payload:?} prot={prot_used} lead={led} src={src}"
         ),
@@ -226,7 +231,33 @@ fn build_crafted(ct: u8, epoch: u16, seq: u64, payload: &Payload, prot: &Prot, s
         ],
         dgram,
         src,
+    };
+    b.labels.extend(extra_labels);
+    b
+}
+
+/// Unprotected records whose header claims a protected epoch: every session frozen mid-handshake gets
+/// this fixed set in front of its generated injections (content type x epoch x sequence x source).
+fn claimed_epoch_prelude() -> Vec<Inj> {
+    let mut v = Vec::new();
+    let seqs = [0u64, 1, 5, 0xFFFF_FFFF_FFFF, 0x7F00_0000_0001, 2];
+    let mut k = 0usize;
+    for (ct, payload) in [
+        (23u8, Payload::Sctp { len: 16 }),
+        (21, Payload::Alert { level: 1, desc: 0 }),
+        (22, Payload::Hs { msg_type: 20, msg_seq: 1, wellformed: true, len: 12 }),
+        (20, Payload::Ccs),
+        (23, Payload::Random(vec![0x17; 3])),
+        (21, Payload::Alert { level: 2, desc: 0 }),
+    ] {
+        for epoch in [1u16, 2, 0xFFFF] {
+            for src in [0u8, 1 + (k as u8 & 1)] {
+                v.push(Inj::Crafted { ct, epoch, seq: seqs[k % seqs.len()], payload: payload.clone(), prot: Prot::Plain, src, lead: false });
+                k += 1;
+            }
+        }
     }
+    v
 }
 
 pub fn grid() -> Vec<Inj> {
@@ -405,12 +436,32 @@ struct Shape {
     plain_app_bodies: Vec<Vec<u8>>,
     plain_close_notify: bool,
     plain_hs_types: Vec<u8>,
+    /// raw bodies of ApplicationData records whose header claims a protected epoch (>= 1): the upper
+    /// layer may see the *plaintext* of such a record if it authenticates, never the body itself
+    claimed_app_bodies: Vec<Vec<u8>>,
+    /// an alert record claiming epoch >= 1 whose raw body reads as close_notify
+    claimed_close_notify: bool,
 }
 
 fn shape(dgram: &[u8]) -> Shape {
-    let mut s = Shape { plain_app_bodies: Vec::new(), plain_close_notify: false, plain_hs_types: Vec::new() };
+    let mut s = Shape {
+        plain_app_bodies: Vec::new(),
+        plain_close_notify: false,
+        plain_hs_types: Vec::new(),
+        claimed_app_bodies: Vec::new(),
+        claimed_close_notify: false,
+    };
     for r in wire::dtls_records(dgram) {
         if r.epoch != 0 {
+            match r.content_type {
+                23 => s.claimed_app_bodies.push(r.body.clone()),
+                21 => {
+                    if r.body.len() >= 2 && r.body[1] == 0 {
+                        s.claimed_close_notify = true;
+                    }
+                }
+                _ => {}
+            }
             continue;
         }
         match r.content_type {
@@ -455,6 +506,8 @@ struct Target<'a> {
 
 enum BarEnd {
     Reached,
+    /// the marker record's sealed body came up undecrypted
+    MarkerRaw,
     ChannelClosed,
     Timeout,
 }
@@ -475,6 +528,7 @@ impl<'a> Target<'a> {
                 let seq = 0x7F00_0000_0000u64 + self.marker_n;
                 let full = (1u64 << 48) | seq;
                 let m = seal_ex(&k, &iv, 23, 1, seq, full, full, &plain);
+                let raw_body = m[13..].to_vec();
                 self.sess.pair.inject(self.to, Bytes::from(m), self.peer_addr()).await;
                 let deadline = tokio::time::sleep(Duration::from_secs(4));
                 tokio::pin!(deadline);
@@ -482,6 +536,7 @@ impl<'a> Target<'a> {
                     tokio::select! {
                         x = self.rx.recv() => match x {
                             Some(b) if b[..] == plain[..] => return (got, BarEnd::Reached),
+                            Some(b) if b[..] == raw_body[..] => return (got, BarEnd::MarkerRaw),
                             Some(b) => got.push(b),
                             None => return (got, BarEnd::ChannelClosed),
                         },
@@ -567,6 +622,8 @@ impl<'a> Target<'a> {
             }
             let sig = if shp.plain_app_bodies.iter().any(|p| p[..] == d[..]) {
                 sig_app.to_string()
+            } else if shp.claimed_app_bodies.iter().any(|p| p[..] == d[..]) {
+                format!("plaintext-protected-epoch-record-delivered({ph})")
             } else {
                 format!("unauthenticated-payload-delivered({ph})")
             };
@@ -588,6 +645,8 @@ impl<'a> Target<'a> {
             }
             let sig = if name == "Closed" && shp.plain_close_notify {
                 sig_close.to_string()
+            } else if name == "Closed" && shp.claimed_close_notify {
+                format!("plaintext-protected-epoch-alert-acted-on({ph})")
             } else if name == "Failed" && !shp.plain_hs_types.is_empty() && self.phase == Phase::Established {
                 SIG_PLAIN_HS_FAILS_EST.to_string()
             } else {
@@ -601,6 +660,10 @@ impl<'a> Target<'a> {
         }
         match end {
             BarEnd::Reached => Ok(true),
+            BarEnd::MarkerRaw => Err(Fail::new(
+                format!("sealed-record-delivered-undecrypted({ph})"),
+                ctx("the authentic marker record sent after this injection reached the upper layer as its raw sealed body (explicit nonce || ciphertext || tag): a record claiming epoch 1 was handed up without being opened"),
+            )),
             _ => Err(Fail::timing(
                 "barrier-timeout",
                 ctx("the barrier after the injection was not reached within 4 s although the state did not change"),
@@ -701,7 +764,10 @@ async fn rx_inner(c: &RxCase, sh: &Shared, rec: &CaseRec) -> Check {
         lim: Lim::default(),
     };
     let mut built = Vec::new();
-    for i in &c.injs {
+    // plaintext claiming the current and a future epoch is part of every generated session
+    // (the enumerated grid and the replays run exactly what they say)
+    let prelude = if c.injs.len() >= 40 { claimed_epoch_prelude() } else { Vec::new() };
+    for i in prelude.iter().chain(c.injs.iter()) {
         expand(i, &env, &mut built);
     }
     let mut t = Target {
@@ -852,7 +918,9 @@ async fn mid_inner(c: &MidCase, sh: &Shared, rec: &CaseRec) -> Check {
     }
     let env = Env { peer_key, own_key, gen_to: Vec::new(), gen_own: Vec::new(), lim };
     let mut built = Vec::new();
-    for i in &c.injs {
+    // generated cases carry >= 10 injections; hand-reduced replays run exactly what they say
+    let prelude = if c.injs.len() >= 10 { claimed_epoch_prelude() } else { Vec::new() };
+    for i in prelude.iter().chain(c.injs.iter()) {
         if matches!(i, Inj::Crafted { .. }) {
             expand(i, &env, &mut built);
         }
@@ -871,10 +939,20 @@ async fn mid_inner(c: &MidCase, sh: &Shared, rec: &CaseRec) -> Check {
         genuine_all,
         novel: 0,
     };
-    // make sure everything delivered so far (e.g. ClientKeyExchange) has been processed
-    let (pre, end) = t.barrier().await;
-    if !matches!(end, BarEnd::Reached) || !pre.is_empty() {
-        return Err(Fail::timing("hold-barrier-failed", format!("initial barrier not reached or data delivered before any injection ({} items)", pre.len())));
+    // make sure everything delivered so far (e.g. ClientKeyExchange) has been processed. Only the echo
+    // barrier needs this; the marker barrier is itself a record claiming epoch 1 and comes after the
+    // first injection.
+    if matches!(t.barrier, Barrier::Echo) {
+        let (pre, end) = t.barrier().await;
+        if let Some(d) = pre.first() {
+            return Err(Fail::new(
+                "unauthenticated-payload-delivered(handshaking)",
+                format!("before any injection and before the handshake completed the upper layer received {} item(s), first {} bytes [{}]: nothing authenticated has been sent yet", pre.len(), d.len(), short_hex(d)),
+            ));
+        }
+        if !matches!(end, BarEnd::Reached) {
+            return Err(Fail::timing("hold-barrier-failed", "initial barrier not reached within 4 s and nothing was delivered"));
+        }
     }
     let mut alive = true;
     for b in &built {
